@@ -235,11 +235,16 @@ impl Dh for Dh25519 {
 
 #[cfg(feature = "p256")]
 impl P256 {
-    fn derive_pubkey(&mut self) {
-        let secret_key = p256::SecretKey::from_bytes(&self.privkey.into()).unwrap();
-        let public_key = secret_key.public_key();
-        let encoded_pub = public_key.to_encoded_point(false);
-        self.pubkey = encoded_pub;
+    /// Returns `false` (leaving no usable public key) if the private key is not a valid
+    /// P-256 scalar, i.e. zero or not below the group order.
+    fn derive_pubkey(&mut self) -> bool {
+        if let Ok(secret_key) = p256::SecretKey::from_bytes(&self.privkey.into()) {
+            self.pubkey = secret_key.public_key().to_encoded_point(false);
+            true
+        } else {
+            self.pubkey = EncodedPoint::identity();
+            false
+        }
     }
 }
 
@@ -269,10 +274,14 @@ impl Dh for P256 {
     }
 
     fn generate(&mut self, rng: &mut dyn Random) {
-        let mut bytes = [0_u8; 32];
-        rng.fill_bytes(&mut bytes);
-        self.privkey = bytes;
-        self.derive_pubkey();
+        loop {
+            let mut bytes = [0_u8; 32];
+            rng.fill_bytes(&mut bytes);
+            self.privkey = bytes;
+            if self.derive_pubkey() {
+                break;
+            }
+        }
     }
 
     fn pubkey(&self) -> &[u8] {
